@@ -13,7 +13,7 @@ def load(name):
 
 
 first = {}
-for n in ["MATRIX.json", "MATRIX_r3_first.json", "MATRIX_r4_first.json", "MATRIX_r5_first.json", "MATRIX_r6_first.json", "MATRIX_r7_first.json", "MATRIX_r8_first.json", "MATRIX_r9_first.json", "MATRIX_r10_first.json", "MATRIX_r11_first.json", "MATRIX_r12_first.json"]:
+for n in ["MATRIX.json", "MATRIX_r3_first.json", "MATRIX_r4_first.json", "MATRIX_r5_first.json", "MATRIX_r6_first.json", "MATRIX_r7_first.json", "MATRIX_r8_first.json", "MATRIX_r9_first.json", "MATRIX_r10_first.json", "MATRIX_r11_first.json", "MATRIX_r12_first.json", "MATRIX_r13_first.json"]:
     first.update(load(n))
 recheck = load("MATRIX_recheck.json")
 final = load("MATRIX_final.json")
